@@ -5,7 +5,7 @@
 //!
 //!   cp /repo/Cargo.lock . && cargo build --offline && ./target/debug/repro <mode>
 //!
-//! modes: cyclic | multi | panic | spin | remove | clear | owned | fswatch
+//! modes: cyclic | multi | panic | spin | remove | clear | owned | race | fswatch
 use assets_manager::{hot_reloading::EventSender, source::*, *};
 use std::io;
 use std::sync::{
@@ -64,6 +64,23 @@ impl Compound for P {
             panic!("loader panic");
         }
         Ok(P(n))
+    }
+}
+
+// F8: a compound whose load can be parked after it has read its file.
+static PARK: AtomicBool = AtomicBool::new(false);
+static PARKED: AtomicBool = AtomicBool::new(false);
+struct R(String);
+impl Compound for R {
+    fn load(c: AnyCache, id: &SharedString) -> Result<Self, BoxedError> {
+        let s = String::from_utf8_lossy(c.raw_source().read(id, "r")?.as_ref()).into_owned();
+        if PARK.load(Ordering::SeqCst) {
+            PARKED.store(true, Ordering::SeqCst);
+            while PARK.load(Ordering::SeqCst) {
+                std::thread::sleep(Duration::from_millis(5));
+            }
+        }
+        Ok(R(s))
     }
 }
 
@@ -165,6 +182,26 @@ fn main() {
             send(OwnedDirEntry::File("a".into(), "txt".into()));
             cache.hot_reload();
             eprintln!("owned: value = {:?}, {:?}", *h.read(), h.last_reload_id());
+        }
+        // F8 (C10): a load that loses the insertion race against get_or_insert has already registered the key.
+        // expected "inserted", NEVER; observed "edited", ReloadId(1).
+        "race" => {
+            let cache = AssetCache::with_source(src.clone());
+            PARK.store(true, Ordering::SeqCst);
+            std::thread::scope(|s| {
+                let t = s.spawn(|| cache.load::<R>("a").map(|h| h.read().0.clone()));
+                while !PARKED.load(Ordering::SeqCst) {
+                    std::thread::sleep(Duration::from_millis(5));
+                }
+                // the loader is past its cache miss and has read the file; insert a value under the same key now
+                let h = cache.get_or_insert::<R>("a", R("inserted".to_string()));
+                PARK.store(false, Ordering::SeqCst);
+                let seen_by_loader = t.join().unwrap().unwrap();
+                *src.val.lock().unwrap() = b"edited".to_vec();
+                send(OwnedDirEntry::File("a".into(), "r".into()));
+                cache.hot_reload();
+                eprintln!("race: load() returned {:?}; get_or_insert value = {:?}, {:?}", seen_by_loader, h.read().0, h.last_reload_id());
+            });
         }
         "remove" | "clear" => {
             let mut cache = AssetCache::with_source(src.clone());
